@@ -35,12 +35,14 @@ def generate_bam(ctx):
     f = _c16.File(ctx, ctx.tier == "thorough")
     n = len(f.records)
     idx = L.gen_index(tape, n, "bam.idx")
+    # a selection of the selection in a third of the runs (a plain slice across a gap left by a mask, a mask of a permutation, ...)
+    idx2 = L.gen_index(tape, len(L.norm_index(idx, n)), "bam.idx2") if tape.boolean("bam.two_step", 1, 3) else None
     pre = [BAM_FIELDS[tape.draw(len(BAM_FIELDS), "bam.pre")] for _ in range(tape.draw(3, "bam.npre"))]
     post = [BAM_FIELDS[tape.draw(len(BAM_FIELDS), "bam.post")] for _ in range(1 + tape.draw(3, "bam.npost"))]
     # KF-C05-bam-eager-write-unsupported: an eagerly read BAM table cannot be written (no header context, no from_data),
     # the lazily read one can; the write step is generated in 10 % of the runs only
     do_write = (not ctx.excl) and tape.boolean("bam.write", 2, 3)
-    return {"kind": "bam", "bam": core.esc(f.data), "n_records": n, "idx": idx, "pre": pre, "post": post, "write": do_write,
+    return {"kind": "bam", "bam": core.esc(f.data), "n_records": n, "idx": idx, "idx2": idx2, "pre": pre, "post": post, "write": do_write,
             "records": f.describe() if hasattr(f, "describe") else None}
 
 
@@ -51,9 +53,9 @@ def execute_bam(ctx, sc):
     fs = simfs.SimFS()
     fs.put("/sim/x.bam", core.unesc(sc["bam"]))
     idx = sc["idx"]
-    detail0 = {"kind": "bam", "n_records": sc["n_records"], "idx": idx, "pre": sc["pre"], "post": sc["post"], "write": sc["write"]}
+    detail0 = {"kind": "bam", "n_records": sc["n_records"], "idx": idx, "idx2": sc.get("idx2"), "pre": sc["pre"], "post": sc["post"], "write": sc["write"]}
 
-    def key():
+    def key(idx=idx):
         if idx["kind"] == "slice":
             return slice(idx["a"], idx["b"], idx["c"])
         if idx["kind"] == "mask":
@@ -70,7 +72,7 @@ def execute_bam(ctx, sc):
             raise Inconclusive("both source reads raise")
         if raised(tl) != raised(te):
             raise Violation("twin", "bam.read.one_fails", dict(detail0, lazy_result=repr(tl)[:200], eager_result=repr(te)[:200]))
-        steps = [("sel", None)] + [("get", f) for f in sc["pre"]] + ([("write", None)] if sc["write"] else []) + \
+        steps = [("sel", idx)] + ([("sel", sc["idx2"])] if sc.get("idx2") else []) + [("get", f) for f in sc["pre"]] + ([("write", None)] if sc["write"] else []) + \
                 [("get", f) for f in sc["post"]] + [("all", None)]
         cur = {"lazy": tl, "eager": te}
         for j, (op, arg) in enumerate(steps):
@@ -80,7 +82,7 @@ def execute_bam(ctx, sc):
             for mode in ("lazy", "eager"):
                 v = cur[mode]
                 if op == "sel":
-                    r = core.call(lambda: v[key()])
+                    r = core.call(lambda: v[key(arg)])
                     if not raised(r):
                         cur[mode] = r
                         r = core.call(len, r)
@@ -98,7 +100,7 @@ def execute_bam(ctx, sc):
                     r = _c16.render(v, BAM_FIELDS)
                 res[mode] = r
             rl, re_ = res["lazy"], res["eager"]
-            ctx.state("bam", op, arg, raised(rl), raised(re_))
+            ctx.state("bam", op, arg["kind"] if isinstance(arg, dict) else arg, raised(rl), raised(re_))
             d = dict(detail0, step=j, op=[op, arg], lazy_result=core.short(render(rl), 300), eager_result=core.short(render(re_), 300))
             if raised(rl) and raised(re_):
                 ctx.probe("both_fail_bam_" + op)
@@ -116,6 +118,8 @@ def execute_bam(ctx, sc):
             elif not core.same(rl, re_):
                 raise Violation("twin", f"bam.{op}.differs", d)
     ctx.probe("bam_twin")
+    if sc.get("idx2"):
+        ctx.probe("bam_twin_selection_of_a_selection")
     ctx.io_events += fs.seq
     ctx.note("C05", "bam", sc["idx"]["kind"], sc["pre"], sc["post"], sc["write"])
 
